@@ -15,6 +15,7 @@ import (
 
 	"github.com/dominant-strategies/go-quai/common"
 	"github.com/dominant-strategies/go-quai/core"
+	"github.com/dominant-strategies/go-quai/core/rawdb"
 	"github.com/dominant-strategies/go-quai/core/types"
 	"github.com/dominant-strategies/go-quai/ethdb"
 	"github.com/dominant-strategies/go-quai/log"
@@ -94,6 +95,14 @@ func runProcess(c *core.Core, db ethdb.Database, block *types.WorkObject) outcom
 		last[op.k] = op
 	}
 	for k, op := range last {
+		// the per-block undo list of trimmed outputs ("tutxo" + hash) is filled by one goroutine per
+		// denomination: its ORDER is scheduling dependent but it is a set (used to re-create the outputs
+		// on rollback) and not a commitment, so it is compared as a multiset of bytes
+		if len(k) > 5 && k[:5] == "tutxo" {
+			b := []byte(op.v)
+			sort.Slice(b, func(i, j int) bool { return b[i] < b[j] })
+			op.v = string(b)
+		}
 		if op.del {
 			o.BatchOps = append(o.BatchOps, fmt.Sprintf("D %x", k))
 		} else {
@@ -177,6 +186,8 @@ func history(m *mon.M, r *rand.Rand, hIdx, blocks int, replayEvery int, follower
 	}
 	defer a.N.Stop()
 	a.DoubleSpend = true
+	a.TrimRace = true
+	a.QiPerStep, a.ConvEvery = 3, 2
 	var fol []*hnet.Net
 	for _, be := range followers {
 		dir, _ := os.MkdirTemp(".", "c06-"+be+"-")
@@ -188,6 +199,7 @@ func history(m *mon.M, r *rand.Rand, hIdx, blocks int, replayEvery int, follower
 		fol = append(fol, f)
 		defer func(f *hnet.Net, dir string) { f.Close(); os.RemoveAll(dir) }(f, dir)
 	}
+	var drift []common.Hash // outputs the header commitments removed twice (listed finding), see below
 	for i := 0; i < blocks; i++ {
 		want := -1
 		if i%9 == 8 {
@@ -207,8 +219,30 @@ func history(m *mon.M, r *rand.Rand, hIdx, blocks int, replayEvery int, follower
 			m.Violation("own-block-not-executable", err.Error(), wit)
 			return
 		}
+		// An output that is spent by a Qi tx of this block AND trimmed by this block is removed from the
+		// commitment twice (TrimBlock reads the database, not the batch): identify the event independently
+		// from the block's inputs and the block's stored trim list, report it under its own signature and
+		// carry the drift forward so that every other discrepancy is still caught.
+		if trimmed, err := rawdb.ReadTrimmedUTXOs(a.N.Zone().DB, mined.Hash); err == nil && len(trimmed) > 0 {
+			spent := map[string]bool{}
+			for _, tx := range zb.Transactions() {
+				if tx.Type() == types.QiTxType {
+					for _, in := range tx.TxIn() {
+						spent[fmt.Sprintf("%x:%d", in.PreviousOutPoint.TxHash[:], in.PreviousOutPoint.Index)] = true
+					}
+				}
+			}
+			for _, tu := range trimmed {
+				if spent[fmt.Sprintf("%x:%d", tu.TxHash[:], tu.Index)] {
+					drift = append(drift, types.UTXOHash(tu.TxHash, tu.Index, tu.UtxoEntry))
+					w2 := map[string]any{"block": wit, "outpoint": fmt.Sprintf("%x:%d", tu.TxHash[:], tu.Index), "denomination": tu.Denomination}
+					m.Violation("commitment-counts-output-twice:spent-and-trimmed-in-same-block", fmt.Sprintf("output %x:%d (denomination %d) is an input of a Qi transaction of block %d and is also in the block's trim list: UTXO root and set size remove it twice, the database once", tu.TxHash[:6], tu.Index, tu.Denomination, mined.Number[2]), w2)
+					m.Eval("trim-race-observed", mined.Hash.Hex())
+				}
+			}
+		}
 		// (1) header commitments == stored state
-		bad, scan, err := a.N.CheckHeadCommitment()
+		bad, scan, err := a.N.CheckHeadCommitmentWithDrift(drift)
 		if err != nil {
 			m.Violation("scan-error", err.Error(), wit)
 			return
@@ -296,7 +330,7 @@ func history(m *mon.M, r *rand.Rand, hIdx, blocks int, replayEvery int, follower
 				fol[fi] = nil
 				continue
 			}
-			fbad, fscan, err := f.CheckHeadCommitment()
+			fbad, fscan, err := f.CheckHeadCommitmentWithDrift(drift)
 			if err != nil {
 				m.Violation("scan-error:"+be, err.Error(), wit)
 				continue
